@@ -3,6 +3,11 @@
 
 package js_lexer
 
+import (
+	"github.com/evanw/esbuild/internal/config"
+	"github.com/evanw/esbuild/internal/logger"
+)
+
 // Thin wrappers (no logic) used by the verification harness in /verif (property C16).
 
 func VerifDecodeJSXEntities(text string) []uint16 { return decodeJSXEntities(nil, text) }
@@ -11,3 +16,27 @@ func VerifJSXEntity(name string) (rune, bool) {
 	value, ok := jsxEntity[name]
 	return value, ok
 }
+
+// VerifFirstToken: a lexer is created over text exactly as the parser does (NewLexer lexes the
+// first token); returns the token and the cursor. textLen is the length of the string/template
+// literal's text (slow path: the encoded text, fast path: the decoded units).
+func VerifFirstToken(text string) (tok T, end int, current int, codePoint rune, textLen int) {
+	lexer := NewLexer(logger.NewDeferLog(logger.DeferLogAll, nil), logger.Source{Contents: text}, config.TSOptions{})
+	if lexer.decodedStringLiteralOrNil != nil {
+		textLen = len(lexer.decodedStringLiteralOrNil)
+	} else {
+		textLen = len(lexer.encodedStringLiteralText)
+	}
+	return lexer.Token, lexer.end, lexer.current, lexer.codePoint, textLen
+}
+
+// VerifScanRegExp: NewLexer over a text that starts with '/', then ScanRegExp as the parser does.
+func VerifScanRegExp(text string) (tok T, end int, current int, codePoint rune) {
+	lexer := NewLexer(logger.NewDeferLog(logger.DeferLogAll, nil), logger.Source{Contents: text}, config.TSOptions{})
+	tok = lexer.Token
+	lexer.ScanRegExp()
+	return tok, lexer.end, lexer.current, lexer.codePoint
+}
+
+// VerifIsLexerPanic reports whether a recovered value is the typed lexer panic.
+func VerifIsLexerPanic(r interface{}) bool { _, ok := r.(LexerPanic); return ok }
